@@ -40,7 +40,7 @@ def Lvl.WF : Lvl → Prop
   | .c C P => C.op.kind = .chain ∧ P.op.kind = .rootNode
   | .tc T C P => T.op.kind = .tuple ∧ C.op.kind = .chain ∧ P.op.kind = .rootNode
 
-theorem Lvl.WF.level {L : Lvl} (h : L.WF) : Level L.toList := by
+theorem Lvl.WF.level {L : Lvl} (h : L.WF) : StkLevel L.toList := by
   cases L with
   | r R => exact .r R h
   | t T P => exact .t T P h.1 h.2
